@@ -31,7 +31,9 @@ func EndingWrappers() []EndingWrapper {
 		{"if", func(d, st string) string { return "IF TRUE THEN " + st + " END IF;" }},
 		{"elseif", func(d, st string) string { return "IF FALSE THEN PRINT 'no'; ELSEIF TRUE THEN " + st + " END IF;" }},
 		{"else", func(d, st string) string { return "IF FALSE THEN PRINT 'no'; ELSE " + st + " END IF;" }},
-		{"case", func(d, st string) string { return "CASE WHEN FALSE THEN PRINT 'no'; WHEN TRUE THEN " + st + " END CASE;" }},
+		{"case", func(d, st string) string {
+			return "CASE WHEN FALSE THEN PRINT 'no'; WHEN TRUE THEN " + st + " END CASE;"
+		}},
 		{"case-else", func(d, st string) string { return "CASE 1 WHEN 2 THEN PRINT 'no'; ELSE " + st + " END CASE;" }},
 		{"while", func(d, st string) string {
 			return "VAR @we := 0; WHILE @we < 3 DO @we := @we + 1; " + st + " END WHILE;"
